@@ -6,6 +6,7 @@ is judged by the collectors alone".  Which cargo feature selects which level (tr
 -/
 import TracingModel.Props.C01R
 import TracingModel.Gen.StaticMaxLevel
+import TracingModel.Props.C02A
 
 namespace C01
 open TM.Gen.StaticMaxLevel
@@ -40,5 +41,19 @@ theorem static_level_strictest (release : Bool) (a b : Nat) (ha : a ≤ 4) (hb :
   have h1 : a = 0 ∨ a = 1 ∨ a = 2 ∨ a = 3 ∨ a = 4 := by omega
   have h2 : b = 0 ∨ b = 1 ∨ b = 2 ∨ b = 3 ∨ b = 4 := by omega
   cases release <;> rcases h1 with h | h | h | h | h <;> rcases h2 with g | g | g | g | g <;> subst h <;> subst g <;> decide
+
+/-! ### the process-wide count of live scopes (the shortcut in front of the thread's scoped default) -/
+
+/-- opening and closing a scope update the count of live scopes with ONE atomic operation each (from dispatch.rs on every run) -/
+theorem scope_count_is_atomic : TM.Gen.AtomicCounts.scopeOpenIsRmw = true ∧ TM.Gen.AtomicCounts.scopeCloseIsRmw = true :=
+  C02.scope_counter_code_facts
+
+/-- … hence, under every interleaving of any number of threads opening and closing scopes, the count reads 0 only when no scope
+is live anywhere: the shortcut "no scope anywhere => use the global default" never hides a thread's own collector -/
+theorem scope_count_zero_means_no_scope (c0 : Nat) (ths : List Nat) (hnd : ths.Nodup) (kind : Nat → TM.AtomicCount.Kind)
+    (hroom : (TM.AtomicCount.decs kind ths).length ≤ c0) (sched : List Nat) (hs : ∀ t ∈ sched, t ∈ ths) :
+    let s := TM.AtomicCount.run TM.Gen.AtomicCounts.scopeOpenIsRmw true kind (TM.AtomicCount.start c0) sched
+    s.c = 0 ↔ c0 + TM.AtomicCount.finished s (TM.AtomicCount.incs kind ths) = TM.AtomicCount.finished s (TM.AtomicCount.decs kind ths) :=
+  C02.fast_path_sound c0 ths hnd kind hroom sched hs
 
 end C01
